@@ -51,8 +51,9 @@ def build(u):
         'trusted: as U-SYM (HashMap::get_mut spec, Result::clone spec, vstd HashMap/Option/Result/String specs, derived Clone identity, derived PartialEq of ValueType is teq)',
         'opaque: Location, lexer::Error, DeclarationFlag, EnumSet<T>',
         'arms of Statement::analyze other than Declaration / Assignment (calls, if, block, jumps) are verified only to keep the table well formed',
-        'caller obligations aa_obligations (precondition of Reference::analyze_assignment and, through stmt_pre, of Statement::analyze): the three assert!(..is_wellformed()) sites that '
-        'nothing in the typer guards - the type built for the base variable, the type built for the last member from the steps below it, the assignee type of E507 - and pointer depth < 2^64. '
+        'caller obligations aa_obligations (precondition of Reference::analyze_assignment and, through stmt_pre, of Statement::analyze): the two assert!(..is_wellformed()) sites that '
+        'nothing in the typer guards - the type built for the base variable (put_symbol -> do_update_symbol) and the assignee type of E507 - and pointer depth < 2^64; the member put is guarded '
+        '(the built member type is replaced by the type of the value when it is not well formed) and its well-formedness obligation is PROVED. '
         'Recorded findings D22 (`a[0] = s` for a slice s) and D23 (`&p = s`) violate them on the real pipeline (compiler panic instead of E504/E507); they stay preconditions, not proved',
         'verified helpers (not trusted): steps_last_member (prelude/typst_helpers.rs, rule TY1), slice_rposition / slice_position (prelude/slice_position.rs, rule TY3), index loop of rule TY2; '
         'lemma_last_member_char ties the member found by iter().rev().find_map(get_member) to the index found by iter().rposition(is member)',
